@@ -25,7 +25,7 @@ pub fn scenarios(thorough: bool) -> Vec<Scenario> {
     t.cfg.pairs = false;
     v.push(t);
     // mainnet crosses its own activation height 830000 (root re-labelled at 829998)
-    let mut mnet = sc("mainnet-activation-830000", NetID::Mainnet, 0, AlphaCfg::base(), if thorough { 7 } else { 6 });
+    let mut mnet = sc("mainnet-activation-830000", NetID::Mainnet, 0, AlphaCfg::base(), if thorough { 6 } else { 5 });
     mnet.pre = vec![Action::Jump(829_998)];
     mnet.cfg.adversarial = false;
     mnet.cfg.pairs = false;
